@@ -170,3 +170,30 @@ def run_graph(g, specs, root, *, again=False, jobs=None, stop_early=False, cache
 
 def describe(specs, root=None):
     return ["%s %s deps=%s%s" % (s.kind, s.ident, s.deps, " par" if s.par else "") for s in specs]
+
+
+def output_writer(kernel, proc):
+    """Fake task body: leave one file in $COND_OUT (so combine has something to link)."""
+    out = proc.env.get("COND_OUT")
+    if out and os.path.isdir(out):
+        with open(os.path.join(out, "result.txt"), "w") as fh:
+            fh.write("by %s pid %d\n" % (proc.name, proc.pid))
+
+
+def crash_check(g, res, specs):
+    """Anything but a clean exit / ERROR exit is an internal error of cond."""
+    if isinstance(res.status, str):
+        g.require(False, "run:crash:" + res.status,
+                  "cond run died with %r; %s" % (res.exc, describe(specs)))
+
+
+def spawned_by_task(res, specs):
+    idx = {s.name: j for j, s in enumerate(specs)}
+    out = {}
+    for p in res.kernel.tasks():
+        out.setdefault(idx.get(p.name, p.name), []).append(p)
+    return out
+
+
+def ident_index(specs):
+    return {s.ident: j for j, s in enumerate(specs)}
